@@ -8,6 +8,7 @@ CONSTANTS
   MaxSnaps = 0
   MaxNextF = 0
   TrackFiles = TRUE
+  AllowRepair = FALSE
   UseBoundary = TRUE
   DropTombstoneAlways = FALSE
   CheckFlushLevel = TRUE
